@@ -128,10 +128,21 @@ Fixpoint readall_loop (fuel : nat) (s : ls) (u : und) (acc : bytes) : out * ls *
          end
        end.
 
-Definition readall (s : ls) (u : und) : out * ls * und :=
+(* LimitedStream.readall; post = the test of the statement after the loop
+   (`if self._limit_is_max and self.is_exhausted: self.on_exhausted()`), readall_post in the source *)
+Definition readall_g (post : bool -> bool -> bool) (s : ls) (u : und) : out * ls * und :=
   if is_exhausted s
   then (match on_exhausted_gen (is_max s) with Some e => Exn e | None => OkB [] end, s, u)
-  else readall_loop (S (length (u_data u))) s u [].
+  else match readall_loop (S (length (u_data u))) s u [] with
+       | (OkB acc, s', u') =>
+         if post (is_max s') (is_exhausted s')
+         then (match on_exhausted_gen (is_max s') with Some e => Exn e | None => OkB acc end, s', u')
+         else (OkB acc, s', u')
+       | r => r
+       end.
+Definition readall := readall_g readall_post.
+(* the loop without the report of a reached maximum, as it was before the repair *)
+Definition readall_unrepaired := readall_g (fun _ _ => false).
 
 Definition exhaust (s : ls) (u : und) : out * ls * und :=
   if negb (is_exhausted s) then readall s u else (OkB [], s, u).
